@@ -256,8 +256,14 @@ def accumulator_comp(func_node: ast.AST, name: str) -> Optional[ast.expr]:
         sst = enclosing_stmt(site)
         if not isinstance(sst, ast.Expr) or sst.value is not site:
             return None
+        extra = []
         if kind == "list" and site.func.attr == "append" and len(site.args) == 1:
             elt = site.args[0]
+        elif kind == "list" and site.func.attr == "extend" and len(site.args) == 1 and isinstance(site.args[0], (ast.ListComp, ast.GeneratorExp)):
+            # x.extend(E for u in T)  ==  for u in T: x.append(E)
+            elt = site.args[0].elt
+            extra = [clone(g_) for g_ in site.args[0].generators]
+            return _loop_comp(func_node, name, dst, sst, key, elt, extra_gens=extra)
         elif kind == "dict" and site.func.attr == "update" and len(site.args) == 1 and isinstance(site.args[0], ast.Dict) and len(site.args[0].keys) == 1 and site.args[0].keys[0] is not None:
             key, elt = site.args[0].keys[0], site.args[0].values[0]
         else:
@@ -270,7 +276,7 @@ def accumulator_comp(func_node: ast.AST, name: str) -> Optional[ast.expr]:
     return _loop_comp(func_node, name, dst, sst, key, elt)
 
 
-def _loop_comp(func_node, name, dst, sst, key, elt, counter: bool = False) -> Optional[ast.expr]:
+def _loop_comp(func_node, name, dst, sst, key, elt, counter: bool = False, extra_gens=None) -> Optional[ast.expr]:
     # chain of loops / ifs between the definition's statement list and the site
     gens: list[ast.comprehension] = []
     pending_ifs: list[ast.expr] = []
@@ -308,6 +314,9 @@ def _loop_comp(func_node, name, dst, sst, key, elt, counter: bool = False) -> Op
     outer = loops[-1]
     # temporaries of the loop body
     loop_targets = {n.id for lp in loops for n in ast.walk(lp.target) if isinstance(n, ast.Name)}
+    if extra_gens:
+        gens.extend(extra_gens)
+        loop_targets |= {n.id for g_ in extra_gens for n in ast.walk(g_.target) if isinstance(n, ast.Name)}
 
     def sub(e: ast.expr) -> ast.expr:
         return _expand_in(func_node, e, scope=outer, stop=loop_targets | {name})
@@ -332,6 +341,12 @@ def _expand_in(func_node, e: ast.expr, scope: ast.AST, stop: set[str], depth: in
             if not isinstance(n.ctx, ast.Load) or n.id in stop or depth <= 0:
                 return n
             defs = local_defs(func_node, n.id)
+            if len(defs) == 2 and all(v_ is not None and contains(scope, s_) and n.id not in names_in(v_) for s_, v_ in defs):
+                # if c: t = A else: t = B   ->   A if c else B
+                p0, p1 = parent(defs[0][0]), parent(defs[1][0])
+                if p0 is p1 and isinstance(p0, ast.If) and any(defs[0][0] is s_ for s_ in p0.body) and any(defs[1][0] is s_ for s_ in p0.orelse) and len(p0.body) == 1 and len(p0.orelse) == 1:
+                    ife = ast.IfExp(test=clone(p0.test), body=clone(defs[0][1]), orelse=clone(defs[1][1]))
+                    return _expand_in(func_node, ast.copy_location(ife, n), scope, stop | {n.id}, depth - 1)
             if len(defs) != 1 or defs[0][1] is None or not contains(scope, defs[0][0]) or n.id in names_in(defs[0][1]):
                 return n
             if _mutated(func_node, n.id):
